@@ -138,7 +138,7 @@ TLim == /\ Ev.ev = "Lim"
            /\ Drift(LimitOp(lb, B(Ev.lim)) = la)
         /\ UNCHANGED <<m, g, p, gmt, gms, codec, pidm, nbeh, nknown>>
 
-TOther == /\ Ev.ev \in {"Resize"}
+TOther == /\ Ev.ev \notin {"New", "Pin", "W", "N", "Adj", "Rate", "Lim"}
           /\ UNCHANGED <<m, g, p, gmt, gms, codec, pidm, drift, frozen, nbeh, skip, nbad, nknown>>
 
 TSkip == /\ skip /\ Ev.ev # "New"
